@@ -149,21 +149,31 @@ func c17Part(s string, emit func(desc, input string)) {
 	}
 	// id transformer round trip for ids that are valid parts
 	if want {
-		m := res.NewMux("")
-		pn := safe(func() { m.Handle("m.$id") })
-		if pn != "" {
-			emit("Handle(m.$id) panicked: "+pn, "part\x1f"+s)
-			return
-		}
-		tr := store.IDTransformer("id", nil)
-		rid := tr.IDToRID(s, nil, res.Pattern("m.$id"))
-		mh := m.GetHandler(rid)
-		if mh == nil {
-			emit(fmt.Sprintf("IDTransformer: id %q -> rid %q is not routed to m.$id", s, rid), "part\x1f"+s)
-			return
-		}
-		if back := tr.RIDToID(rid, mh.Params); back != s {
-			emit(fmt.Sprintf("IDTransformer: id %q -> rid %q -> id %q", s, rid, back), "part\x1f"+s)
+		// the tag name also occurs inside a literal token, as a prefix of another tag and after the tag
+		for _, pat := range []string{"m.$id", "a$id.$id", "m.$id.n", "$idx.m.$id", "x$id$id.y.$id.$idy"} {
+			m := res.NewMux("")
+			pn := safe(func() { m.Handle(pat) })
+			if pn != "" {
+				emit("Handle("+pat+") panicked: "+pn, "part\x1f"+s)
+				return
+			}
+			tr := store.IDTransformer("id", nil)
+			rid := tr.IDToRID(s, nil, res.Pattern(pat))
+			wantRID := ref.ReplaceTags(pat, map[string]string{"id": s})
+			if rid != wantRID {
+				emit(fmt.Sprintf("IDTransformer(id).IDToRID(%q) on pattern %q gives %q, replacing the tag token gives %q", s, pat, rid, wantRID), "part\x1f"+s)
+				continue
+			}
+			// remaining tags get concrete values to make it a resource id
+			concrete := string(res.Pattern(rid).ReplaceTags(map[string]string{"idx": "q", "idy": "r"}))
+			mh := m.GetHandler(concrete)
+			if mh == nil {
+				emit(fmt.Sprintf("IDTransformer: id %q -> rid %q is not routed to %q", s, concrete, pat), "part\x1f"+s)
+				continue
+			}
+			if back := tr.RIDToID(concrete, mh.Params); back != s {
+				emit(fmt.Sprintf("IDTransformer on %q: id %q -> rid %q -> id %q", pat, s, concrete, back), "part\x1f"+s)
+			}
 		}
 	}
 }
